@@ -90,8 +90,16 @@ fn check_on(db: &anything::Db, c: &Lookup, session: &'static str) -> CaseReport 
         return fail("empty-description", format!("{:?}", d.tokens));
     }
     if let Some(id) = d.source {
-        if db.get_source(id).is_none() {
-            return fail("dangling-source", format!("source id {} of {:?} does not resolve", id, d.tokens));
+        match db.get_source(id) {
+            None => return fail("dangling-source", format!("source id {} of {:?} does not resolve", id, d.tokens)),
+            Some(s) => {
+                // the source the id resolves to is the shipped source of that id (decoded by the harness from sources.bin.gz)
+                let shipped = facts().sources_full.iter().find(|x| x.0 == id);
+                let same = s.id == id && shipped.map(|x| x.1.as_str() == &*s.description && x.2.as_deref() == s.url.as_deref()).unwrap_or(false);
+                if !same {
+                    return fail("source-resolves-to-another-source", format!("source id {} of {:?} resolves to id {} ({}); shipped: {:?}", id, d.tokens, s.id, s.description, shipped));
+                }
+            }
         }
     }
     if val.value != d.value || val.unit != d.unit {
@@ -151,7 +159,7 @@ fn mix(a: u64, b: u64) -> u64 {
 }
 
 pub fn run_check(ctx: &Ctx) {
-    ctx.set_rule("every constant of the shipped database (decoded by the harness from db/*.bin.gz) whose words are typable ([A-Za-z0-9°']+, first word not starting with a digit, no word `to`) is asked for by exactly its words joined by blanks (also every rotation, the reversal and pseudo-random permutations: 12 orders per constant, thorough 240); each against an in-memory database, the on-disk session that builds the index and reopened on-disk sessions; oracle: one value, one description whose phrase is the query, the returned constant carries every asked word, has a description, a resolvable source, its value and unit are the result, and it equals (unit ==, unit text, value, description, source) the constant the library decodes straight from the shipped file; also pairs of constants as the two root expressions of one query (each with its successor and with one from afar; thorough: with 59 from afar): each answers as it does alone; non-trivial = at least two words; distinct by query text");
+    ctx.set_rule("every constant of the shipped database (decoded by the harness from db/*.bin.gz) whose words are typable ([A-Za-z0-9°']+, first word not starting with a digit, no word `to`) is asked for by exactly its words joined by blanks (also every rotation, the reversal and pseudo-random permutations: 12 orders per constant, thorough 240); each against an in-memory database, the on-disk session that builds the index and reopened on-disk sessions; oracle: one value, one description whose phrase is the query, the returned constant carries every asked word, has a description, a source id that resolves to the shipped source of that id (id, description and URL as the harness decodes them from sources.bin.gz), its value and unit are the result, and it equals (unit ==, unit text, value, description, source) the constant the library decodes straight from the shipped file; also pairs of constants as the two root expressions of one query (each with its successor and with one from afar; thorough: with 59 from afar): each answers as it does alone; non-trivial = at least two words; distinct by query text");
     let f = facts();
     if !f.undecodable.is_empty() {
         ctx.record_case("decode", CaseReport::fail("decode", "shipped-constant-does-not-decode", json!(f.undecodable)), json!({"undecodable": f.undecodable}));
